@@ -63,6 +63,8 @@ STMTS = {
     "s6": "def fetch(a, /, b=2, *args, c=None, **kw):\n    return a",
     "t3": "async def fetch_async(url, *, retries: int = 3) -> str:\n    return url",
     # the synchronised name bound a second time, after its definition (the register-after-the-fact idiom)
+    # a top-level namesake of the two inner segments of a three-deep target `Pkg.Outer.ConfigClass`
+    "s7": "class Outer(object):\n    class ConfigClass(object):\n        decoy: int = 1",
     "r1": "ConfigClass = ConfigClass",
     "r2": "set_cli_args = set_cli_args",
     "r3": "f = f",
@@ -86,7 +88,7 @@ _MEMN_BY_DUMP = {}       # filled below (MEMBERS_NESTED is defined after _dump)
 
 def inside(kind, ctx):
     """Is the definition of this kind a member of a class in this context?  method: `C.f`; nested: `Outer.ConfigClass`."""
-    return (kind == "function" and ctx == "method") or (kind == "class" and ctx == "nested")
+    return (kind == "function" and ctx == "method") or (kind == "class" and ctx in ("nested", "deep"))
 
 
 CONTAINER = {"function": "C", "class": "Outer"}
@@ -168,7 +170,10 @@ def build_file(kind, st, ctx):
         mem = MEMBERS if kind == "function" else MEMBERS_NESTED
         members = [mem[x] for x in mem_b] + ([d] if d is not None else []) + [mem[x] for x in mem_a]
         if st.get("has_class", True):
-            parts.append("class %s(object):\n" % CONTAINER[kind] + ("\n\n".join(_indent(m) for m in members) if members else "    pass"))
+            block = "class %s(object):\n" % CONTAINER[kind] + ("\n\n".join(_indent(m) for m in members) if members else "    pass")
+            if kind == "class" and ctx == "deep":
+                block = "class Pkg(object):\n" + _indent(block)
+            parts.append(block)
     elif d is not None:
         parts.append(d)
     parts += [STMTS[x] for x in top_a]
@@ -249,6 +254,12 @@ def observe(path, kind, ctx):
     want_name = NAMES.get(kind, "f")
     mem_table = _MEM_BY_DUMP if kind == "function" else _MEMN_BY_DUMP
     for st in tree.body:
+        if kind == "class" and ctx == "deep" and isinstance(st, ast.ClassDef) and st.name == "Pkg" and len(st.body) == 1 \
+                and isinstance(st.body[0], ast.ClassDef) and st.body[0].name == "Outer":
+            st = st.body[0]
+        elif kind == "class" and ctx == "deep" and isinstance(st, ast.ClassDef) and st.name == CONTAINER[kind]:
+            (a if seen else b).append(ident(st, _STMT_BY_DUMP))      # the top-level namesake is an ordinary neighbour
+            continue
         if inside(kind, ctx) and isinstance(st, ast.ClassDef) and st.name == CONTAINER[kind]:
             for m in st.body:
                 if isinstance(m, want_type) and m.name == want_name and not seen:
@@ -304,7 +315,8 @@ def run_sync(root, truth, given, ctx, fault=None, via_cli=False, spell="plain", 
     paths = _paths(spelled(root, spell), twin)      # what the command line says
     FILES = KINDS + (("twin",) if twin else ())
     fname = "C.f" if ctx == "method" else "f"
-    names = {"argparse": "set_cli_args", "class": ("Outer.ConfigClass" if ctx == "nested" else "ConfigClass"), "function": fname}
+    names = {"argparse": "set_cli_args", "function": fname,
+             "class": {"nested": "Outer.ConfigClass", "deep": "Pkg.Outer.ConfigClass"}.get(ctx, "ConfigClass")}
 
     def files_of(k):     # the truth file first (the command line's first file of the truth's kind is the truth)
         return [paths[k]] + ([paths["twin"]] if twin and k == (twin_kind or truth) and "twin" in given else [])
@@ -507,6 +519,8 @@ def pre_states(kind, ctx, rnd, rich):
     frames = [([], []), (["s1"], []), (["s1", "s2"], ["t1"]), (["s4", "s5", "s6"], ["t3"]), (["s3"], ["t2"])]
     if inside(kind, ctx):
         frames = [([], []), (["s1", "C.m1"], ["C.m2"]), (["s2", "C.m1"], ["C.m2", "t1"]), (["s6", "C.m3"], ["C.m2", "t3"]), ([], ["C.m2"])]
+    if kind == "class" and ctx == "deep":
+        frames = [(["s7"], []), (["s1", "s7", "C.m1"], ["C.m2"]), (["C.m1"], ["C.m2", "s7"]), (["s7", "C.m3"], ["C.m2", "t3"]), (["s7"], ["C.m2"])]
     out = [{"st": "missing"}, {"st": "empty"}]
     for b, a in (frames if rich else frames[:4]):
         out.append({"st": "mod", "b": b, "d": "absent", "a": a, "nl": True})
@@ -555,7 +569,7 @@ def histories(prop, thorough, rnd):
     n_per = 40 if thorough else 8
     for truth in KINDS:
         for given in ([KINDS] + [[truth, k] for k in KINDS if k != truth]):
-            for ctx in ("top", "method", "nested"):
+            for ctx in ("top", "method", "nested", "deep"):
                 ts = truth_states(truth, ctx)
                 for shape in shapes:
                     if "sync_cli" in shape and not thorough and rnd.random() < 0.6:
